@@ -182,7 +182,30 @@ DurIsZero(s) == DurMonths(s) = 0 /\ DurSeconds(s) = 0 /\ DurMicros(s) = 0
 
 ValidHexBinary(s) == Len(s) % 2 = 0 /\ AllIn(s, HexDigits)
 
-Judged == IntFamily \cup {"boolean", "decimal", "double", "float", "date", "time", "dateTime", "duration", "dayTimeDuration", "yearMonthDuration", "hexBinary"}
+(* xsd:token (whiteSpace = collapse): no tab / LF / CR, no leading, trailing or doubled #x20; every other character - a no-break space, U+2003 -
+   is an ordinary one.  xsd:normalizedString (whiteSpace = replace): no tab / LF / CR.  Their value is the lexical form itself. *)
+ValidNormalizedString(s) == \A i \in 1..Len(s) : s[i] \notin {"\t", "\n", "\r"}
+ValidToken(s) == /\ ValidNormalizedString(s)
+                 /\ (Len(s) >= 1 => s[1] # " " /\ s[Len(s)] # " ")
+                 /\ \A i \in 1..(Len(s) - 1) : ~(s[i] = " " /\ s[i + 1] = " ")
+(* xsd:base64Binary: ((B64 S?){4})* ((B64 S?){3} B64 | (B64 S?){2} B16 S? '=' | B64 S? B04 S? '=' S? '=')?  with S a single #x20 after collapse *)
+B64Chars == {"A", "B", "C", "D", "E", "F", "G", "H", "I", "J", "K", "L", "M", "N", "O", "P", "Q", "R", "S", "T", "U", "V", "W", "X", "Y", "Z",
+             "a", "b", "c", "d", "e", "f", "g", "h", "i", "j", "k", "l", "m", "n", "o", "p", "q", "r", "s", "t", "u", "v", "w", "x", "y", "z",
+             "0", "1", "2", "3", "4", "5", "6", "7", "8", "9", "+", "/"}
+B16Chars == {"A", "E", "I", "M", "Q", "U", "Y", "c", "g", "k", "o", "s", "w", "0", "4", "8"}
+B04Chars == {"A", "Q", "g", "w"}
+NoSpaces(s) == SelectSeq(s, LAMBDA ch : ch # " ")
+ValidBase64(s) ==
+  LET t == NoSpaces(s)  n == Len(t) IN
+  /\ ValidToken(s)                                   \* single spaces between characters only
+  /\ n % 4 = 0
+  /\ \A i \in 1..n : t[i] \in B64Chars \/ (t[i] = "=" /\ i >= n - 1)
+  /\ (n >= 1 /\ t[n] = "=" =>
+        IF t[n - 1] = "=" THEN t[n - 2] \in B04Chars ELSE t[n - 1] \in B16Chars)
+  /\ (n >= 2 /\ t[n - 1] = "=" => t[n] = "=")
+
+Judged == IntFamily \cup {"boolean", "decimal", "double", "float", "date", "time", "dateTime", "duration", "dayTimeDuration", "yearMonthDuration", "hexBinary",
+                          "token", "normalizedString", "base64Binary"}
 Valid(dt, s) ==
   CASE dt \in IntFamily -> ValidInteger(s) /\ InFacet(dt, CanonInt(s))
     [] dt = "boolean" -> ValidBoolean(s)
@@ -195,11 +218,18 @@ Valid(dt, s) ==
     [] dt = "dayTimeDuration" -> ValidDayTimeDuration(s)
     [] dt = "yearMonthDuration" -> ValidYearMonthDuration(s)
     [] dt = "hexBinary" -> ValidHexBinary(s)
+    [] dt = "token" -> ValidToken(s)
+    [] dt = "normalizedString" -> ValidNormalizedString(s)
+    [] dt = "base64Binary" -> ValidBase64(s)
 (* forms on which XSD 1.0 and 1.1 differ are not judged *)
 WS == {" ", "\t", "\n", "\r"}
 Unjudged(dt, s) == \/ dt \in {"double", "float"} /\ PlusInf(s)
                    \/ dt \in {"date", "dateTime"} /\ YearZero(s)
                    \/ Len(s) >= 1 /\ (s[1] \in WS \/ s[Len(s)] \in WS)     \* whiteSpace = collapse may be applied first: not judged
-HasCanon(dt) == dt \in IntFamily \cup {"boolean", "decimal"}
-Canon(dt, s) == CASE dt \in IntFamily -> CanonInt(s) [] dt = "boolean" -> CanonBoolean(s) [] dt = "decimal" -> CanonDecimal(s)
+                   \* ... the same for white space inside a token / normalizedString / base64Binary that the facet would rewrite (doubled #x20, tab, LF, CR)
+                   \/ dt = "token" /\ ~ValidToken(s)
+                   \/ dt = "normalizedString" /\ ~ValidNormalizedString(s)
+                   \/ dt = "base64Binary" /\ ~ValidToken(s)
+HasCanon(dt) == dt \in IntFamily \cup {"boolean", "decimal", "token", "normalizedString"}
+Canon(dt, s) == CASE dt \in IntFamily -> CanonInt(s) [] dt = "boolean" -> CanonBoolean(s) [] dt = "decimal" -> CanonDecimal(s) [] dt \in {"token", "normalizedString"} -> s
 ===============================================================================
